@@ -101,6 +101,10 @@ Proof. exact expand_fuel_monotone. Qed.
    the source changes (syntactic: also when two rules that never both match are swapped). *)
 Theorem C19_rules_from_source : src_rules = model_rules.
 Proof. exact rules_tie. Qed.
+(* ... and so are the rule sets of the hidden helper macros those rules invoke: json_vec![..] is vec![..] of the same
+   tokens, json_unexpected!() and json_expect_expr_comma!(e, ..) expand to nothing (syntactic) *)
+Theorem C19_helpers_from_source : src_helpers_shown = model_helpers_shown.
+Proof. exact helpers_tie. Qed.
 
 (* ... and the rule functions of Model/Macro.v implement exactly those rules: one step of the
    model's dispatcher [first_match rules] is one step of the generic first-match interpreter of
@@ -243,6 +247,7 @@ Print Assumptions C19_text_is_minimal.
 Print Assumptions C19_int_spelling.
 Print Assumptions C19_fuel_monotone.
 Print Assumptions C19_rules_from_source.
+Print Assumptions C19_helpers_from_source.
 Print Assumptions C19_rules_semantics.
 Print Assumptions C19_expand_by_source_rules.
 Print Assumptions C19_source_rules_expand.
